@@ -254,6 +254,55 @@ theorem firstUnretryable_some (sts : List (Option Nat)) (j : Nat) (h : firstUnre
       subst h
       exact ⟨⟨x, by simp, by simpa using hx⟩, by intro i hi; omega⟩
 
+/-! ### the loop never looks at the object a successful invocation returns -/
+
+def retagStep (f : Nat → Nat) : Step → Step
+  | .done r => .done (retagRes f r)
+  | .sleepRetry => .sleepRetry
+
+theorem handle_retag (f : Nat → Nat) (c : Nat) (o : Outcome) : handle c (retag f o) = retagStep f (handle c o) := by
+  cases o with
+  | bulk sts =>
+    simp only [retag, handle]
+    cases firstUnretryable sts with
+    | some i => rfl
+    | none => simp only []; split <;> rfl
+  | api s => simp only [retag, handle]; split <;> rfl
+  | connTimeout => simp only [retag, handle]; split <;> rfl
+  | connError => simp only [retag, handle]; split <;> rfl
+  | _ => rfl
+
+theorem loop_retag (rnd : Nat → Rat) (f : Nat → Nat) (a : Nat) (outs : List Outcome) :
+    loop rnd a (outs.map (retag f)) = ⟨retagRes f (loop rnd a outs).res, (loop rnd a outs).trace⟩ := by
+  induction outs generalizing a with
+  | nil => simp only [List.map_nil, loop]; split <;> rfl
+  | cons o rest ih =>
+    by_cases ha : a ≤ maxExecutionCount
+    · cases hs : handle (a + 1) o with
+      | done r =>
+        have h' : handle (a + 1) (retag f o) = .done (retagRes f r) := by rw [handle_retag, hs]; rfl
+        rw [List.map_cons, loop_done rnd a _ _ _ ha h', loop_done rnd a o rest r ha hs]
+      | sleepRetry =>
+        have h' : handle (a + 1) (retag f o) = .sleepRetry := by rw [handle_retag, hs]; rfl
+        rw [List.map_cons, loop_retry rnd a _ _ ha h', loop_retry rnd a o rest ha hs, ih (a + 1)]
+    · rw [loop_gt rnd a _ ha, loop_gt rnd a _ ha]; rfl
+
+theorem Value.code_lt (v : Value) : v.code < nValues := by cases v <;> decide
+
+theorem Value.ofCode_code (v : Value) : Value.ofCode v.code = v := by cases v <;> rfl
+
+theorem tagAttempt_resultTag (a : Nat) (v : Value) : tagAttempt (resultTag a v) = a := by
+  have := Value.code_lt v
+  simp only [tagAttempt, resultTag, nValues] at *
+  omega
+
+theorem tagValue_resultTag (a : Nat) (v : Value) : tagValue (resultTag a v) = v := by
+  have h := Value.code_lt v
+  have : (a * nValues + v.code) % nValues = v.code := by
+    simp only [nValues] at *
+    omega
+  simp only [tagValue, resultTag, this, Value.ofCode_code]
+
 end Guarded
 
 namespace Guarded
